@@ -409,6 +409,12 @@ func runCheck(o *checkOpts) int {
 		for _, u := range rep.Unsupported {
 			engineErrs = append(engineErrs, pf.Func+": "+u)
 		}
+		if len(rep.Unsupported) > 0 {
+			// the function under contract could not be analysed completely on this tree: whatever was proved for it
+			// before is no longer established, which is reported as an undischarged obligation of the property
+			// (with the engine's reasons), not silently as a tool problem
+			queries = append(queries, &ObResult{Name: pf.Func + "#analysable", Kind: "ensures", Claimed: true, Verdict: "engine-error", output: strings.Join(rep.Unsupported, "\n"), Pos: ""})
+		}
 		var fnOnly *regexp.Regexp
 		if pf.Only != "" {
 			fnOnly = regexp.MustCompile(pf.Only)
